@@ -1,0 +1,12 @@
+//go:build verif
+
+package gonnx
+
+import "github.com/advancedclimatesystems/gonnx/onnx"
+
+// VerifState exposes the state that outlives a Run (the protobuf and the
+// decoded weights) to the verification harness in /verif. It is only compiled
+// with the "verif" build tag and is read-only by convention.
+func VerifState(m *Model) (*onnx.ModelProto, Tensors) {
+	return m.mp, m.parameters
+}
